@@ -76,7 +76,7 @@ def run(rep, tier, seed):
     rep.assumptions += [
         "TLC explores every document of the families within the stated bounds; larger instances are sampled by parameter scaling",
         "the runner (harness/src/main.rs) and the expat-based projection are trusted",
-        "exact depth boundaries are asserted only for plain element nesting (g / behaviour-free containers), not for reuse chains or text-content re-dispatch",
+        "exact depth boundaries are asserted for plain element nesting and shapes with text content, not for reuse chains",
     ]
     big = tier == "thorough"
     fams = [("depth", dict(MaxNodes=5 if big else 4)), ("flat", dict(MaxNodes=4 if big else 3)),
